@@ -37,13 +37,13 @@ def drop_session(video):
 
 def reset(s, screen):
     """CLEAR, leave and re-enter the mode (clears every page, unsets VIEW and WINDOW)."""
-    s._impl.interpreter.error_num = 0
-    s.execute('CLEAR')
-    s.execute('SCREEN 0')
-    s.execute('WIDTH 80')
-    if screen:
-        s.execute('SCREEN %d' % screen)
-    err = s._impl.interpreter.error_num
+    err = 0
+    for st in ['CLEAR', 'SCREEN 0,,0,0', 'WIDTH 80'] + (['SCREEN %d' % screen] if screen else []):
+        s._impl.interpreter.error_num = 0
+        out = s.execute(st)
+        if s._impl.interpreter.error_num:
+            err = '%s: error %d %r' % (st, s._impl.interpreter.error_num, out)
+            break
     s._impl.interpreter.error_num = 0
     return err
 
@@ -75,11 +75,8 @@ def diff_summary(cells):
         return [0]
     ys = [c[0] for c in cells]
     xs = [c[1] for c in cells]
-    c1 = 0
-    c2 = 0
-    for (y, x, v) in reversed(cells):
-        c1 = (c1 + (y * 1009 + x * 31 + v + 1)) % 1000003
-        c2 = (c2 * 7 + y * 13 + x * 3 + v) % 999983
+    c1 = sum(y * 1009 + x * 31 + v + 1 for (y, x, v) in cells)
+    c2 = sum((y + 1) * (x + 7 * v + 3) for (y, x, v) in cells)
     return [len(cells), min(ys), max(ys), min(xs), max(xs), c1, c2]
 
 
@@ -199,6 +196,13 @@ def coq_vp(view):
     """view: (absolute, x0, y0, x1, y1, maxw, maxh)"""
     ab, x0, y0, x1, y1, mw, mh = view
     return '(VP %s %s %s %s %s %s %s)' % ('true' if ab else 'false', z(x0), z(y0), z(x1), z(y1), z(mw), z(mh))
+
+
+def zl_chunked(l, n=800):
+    """A long `list Z` literal as a concatenation of short ones (coqc's parser overflows its stack on long lists)."""
+    if len(l) <= n:
+        return core.zl(l)
+    return '(' + ' ++ '.join(core.zl(l[i:i + n]) for i in range(0, len(l), n)) + ')'
 
 
 def coq_matrix(rows):
